@@ -83,3 +83,9 @@ def run(ctx):
          'every Pending exit of the dispatch has polled the deadline timers last with Pending (or none are armed), also while the transport is not ready: an expiry is never delayed by back-pressure',
          [poll.loc(poll.d)], 'offending exit states (last timer outcome, w_wait, drain, at_capacity): %s' % bad)
     R.count('states_explored', res['T']['stats'].get('states', 0))
+    # (5) entry and timer live and die together: a removal that leaves its timer armed lets the left-over timer fire on a later request that reuses the id (an
+    # early deadline-exceeded); a timer removed (now or in a later batch, through a key kept aside) for an entry that is still tracked means that call never
+    # fails at its deadline
+    from .C11 import removal_pairing, timer_removed_with_entry
+    removal_pairing(ctx, 'C05.timers', 'client')
+    timer_removed_with_entry(ctx, 'C05.timers', 'client')
